@@ -6,12 +6,6 @@ Ltac Zify.zify_post_hook ::= Z.div_mod_to_equations.
 
 (* ---------------------------------------------------------------- small tools *)
 
-Lemma bytes_okb_ok l : bytes_okb l = true <-> bytes_ok l.
-Proof.
-  unfold bytes_okb, bytes_ok. rewrite forallb_forall, Forall_forall.
-  split; intros H x Hx; specialize (H x Hx); unfold byte_okb, byte_ok in *; lia.
-Qed.
-
 Lemma nthZ_byte l i : bytes_ok l -> 0 <= i < n6_len l -> 0 <= nthZ l (Z.to_nat i) < 256.
 Proof. intros H Hi. apply nthZ_ok; [exact H|]. unfold n6_len in Hi. lia. Qed.
 
